@@ -31,7 +31,7 @@ TRUSTED = ["Coq 8.16.1 kernel (coqc; coqchk in the thorough tier); vm_compute us
            "fibers at that depth, each a path of that depth; owner flag) evaluated on the implementation's observation"]
 ASSUMPTIONS = ["operation set of the model (same as C01): getPayloadRef(+write), getPayload, append(leaf), __setitem__(leaf/coordinate), clear, "
                "updateCoords (affine and table-driven), updatePayloads, iterRangeShapeRef, getPosition/getPositionRef/getPayload/getPayloadRef "
-               "with start_pos, and the fiber-valued mutators (argument fiber given as a tree literal of the matching depth with strictly increasing coordinates, built unowned with the leaf default at the leaf rank and default Fiber at interior ranks): append(c, fiber) and __setitem__(pos, fiber) on interior fibers, extend(fiber) and fiber <<= fiber at any rank (Fiber._registerPayload / _disownPayload: the new fibers are appended to their ranks in "
+               "with start_pos, and the fiber-valued mutators (argument fiber given as a tree literal of the matching depth with strictly increasing coordinates, built unowned with the leaf default at the leaf rank and default Fiber at interior ranks): append(c, fiber), __setitem__(pos, fiber) and __setitem__(pos, CoordPayload(c, fiber)) (coordinate and sub-fiber replaced together; refused for its coordinate before anything is released) on interior fibers, extend(fiber) and fiber <<= fiber at any rank (Fiber._registerPayload / _disownPayload: the new fibers are appended to their ranks in "
                "depth-first order, the replaced ones leave their ranks), on tensors built by Tensor.fromFiber-style loading (depth 1-3 in the "
                "explored cases; the theorems are for any depth)",
                "NOT in the model, hence not covered by the C02 theorems: the other constructors (fromUncompressed, fromRandom, fromYAMLfile, "
